@@ -171,7 +171,7 @@ def run(ctx):
     fs = pl.calls_to(r"Parser::possible_long_flag_subcommand$")
     require(fx, res, "R9.7", "long-flag-subcommand-recognised", pl, r"Parser::possible_long_flag_subcommand$", len(fs), 1, "parse_long_arg no longer looks for long flag-subcommands")
     for i in mh:
-        res.check(any(re.match(r"^!V1:possible_long_flag_subcommand\(", g) for g in guard_strs(pl, i)), "R9.7", "flag-subcommand-before-positional-hyphen", "%s bb%d" % (pl.where(), i),
+        res.check(any(re.match(r"^(!V1|V0):possible_long_flag_subcommand\(", g) for g in guard_strs(pl, i)), "R9.7", "flag-subcommand-before-positional-hyphen", "%s bb%d" % (pl.where(), i),
                   "the positional hyphen-value fallback applies only when the token is no long flag-subcommand",
                   "parse_long_arg hands `--name` to a hyphen-accepting positional before checking whether it is a long flag-subcommand: the subcommand named on argv is not dispatched to")
 
